@@ -220,3 +220,16 @@ Example url_error_roundtrip_example :
   err_ok unit nc_display nc_parse e
   /\ read_back unit nc_parse (to_url unit nc_display u [47; 97] e) = (Some [47; 97], Some e).
 Proof. split; vm_compute; reflexivity. Qed.
+
+Example strip_example :
+  let u := {| u_pre := [104; 116; 116; 112; 58; 47; 47; 104; 47];
+              (* "a=1&__err=QQ%3D%3D&__path=%2Ff&b=%20" *)
+              u_query := Some [97; 61; 49; 38; 95; 95; 101; 114; 114; 61; 81; 81; 37; 51; 68; 37; 51; 68; 38;
+                               95; 95; 112; 97; 116; 104; 61; 37; 50; 70; 102; 38; 98; 61; 37; 50; 48];
+              u_frag := None |} in
+  u_query (strip_error_info u) = Some [97; 61; 49; 38; 98; 61; 43].     (* "a=1&b=+" *)
+Proof. vm_compute. reflexivity. Qed.
+
+Example decode_err_malformed_example :
+  decode_err unit nc_parse [33; 33] = Std KDeserialization (b64_error_display (InvalidByte 0 33)).
+Proof. vm_compute. reflexivity. Qed.
